@@ -1,5 +1,8 @@
 import SlipVerif.Gen.BagBridge
+import SlipVerif.Gen.BagCode
 import SlipVerif.Model.JsonLisp
+import SlipVerif.Model.JsonConfig
+import SlipVerif.Model.JsonWrite
 import SlipVerif.Lemmas.JsonText
 /-
   C18 — obligations over what the extractor regenerates from the source on every run
@@ -229,5 +232,158 @@ theorem gen_simpleObject_other :
     BagBridge.simpleObjectOther.lookup "map[string]any" =
       some "l1 := make(List, 0, len(tv)); range tv; l1 = append(l1, List{String(rk), Tail{Value: SimpleObject(rv)}}); end; obj = l1" ∧
     BagBridge.simpleObjectHasDefault = false := by decide
+
+/-! ## pkg/bag/pkg.go: the converter the two variables call for -/
+
+/-- the model's converter an extracted selection stands for, under the current values -/
+def convOfSel (format wrap : String) : BagCode.ConvSel → Option Conv
+  | .off => some .off
+  | .named "ojg.TimeNanoConverter" => some .nano
+  | .named "ojg.TimeRFC3339Converter" => some .rfc3339
+  | .built "ojg.Converter" ["Float"] => some .second
+  | .built "ojg.Converter" ["String"] => some (.layout format)
+  | .built "alt.Converter" ["Map"] => some (.wrap wrap format)
+  | _ => none
+
+/-- `updateConverter` as the source states it now stores, for ALL values of *bag-time-format* and
+    *bag-time-wrap*, the converter the model's `derive` names: in particular `off` whenever the
+    format is nil — on every path something is stored, so no earlier converter survives
+    (`conv_is_derived`, `reset_restores_default` are theorems about this very function). -/
+theorem gen_derive (format wrap : String) :
+    convOfSel format wrap (BagCode.derive format wrap) = some (derive format wrap) := by
+  unfold BagCode.derive derive
+  by_cases h1 : format = ""
+  · simp [h1, convOfSel]
+  · by_cases h2 : wrap = ""
+    · by_cases h3 : format = "nano"
+      · simp [h3, h2, convOfSel]
+      · by_cases h4 : format = "2006-01-02T15:04:05.999999999Z07:00"
+        · simp [h4, h2, convOfSel, rfc3339nano]
+        · by_cases h5 : format = "rfc3339"
+          · simp [h5, h2, convOfSel, rfc3339nano]
+          · by_cases h6 : format = "second"
+            · simp [h6, h2, convOfSel, rfc3339nano]
+            · simp [h1, h2, h3, h4, h5, h6, convOfSel, rfc3339nano]
+    · simp [h1, h2, convOfSel]
+
+example : convOfSel "second" "" (BagCode.derive "second" "") = some .second := gen_derive "second" ""
+example : convOfSel "" "t" (BagCode.derive "" "t") = some .off := gen_derive "" "t"
+
+/-- the range test of the `second` converter: both ends included, the model's bounds -/
+theorem gen_second_range (x : Int) :
+    BagCode.secondRange x = (decide ((secondLo : Int) ≤ x) && decide (x ≤ (secondHi : Int))) := by
+  simp [BagCode.secondRange, secondLo, secondHi]
+  rfl
+
+/-- the length test of a layout converter -/
+theorem gen_layout_min_len (n : Int) : BagCode.layoutMinLen n = decide ((layoutMin : Int) ≤ n) := by
+  simp [BagCode.layoutMinLen, layoutMin]
+  rfl
+
+/-- the wrap converter: exactly one member (`wrapFires` matches `[(k, v)]`), the layouts tried on a
+    string member (RFC 3339 with and without fraction, the plain date, then the format itself),
+    nanoseconds for an int64 member -/
+theorem gen_wrap_converter (format : String) :
+    (∀ n : Int, BagCode.wrapMembers n = decide (n = 1)) ∧
+    BagCode.wrapLayouts format = [rfc3339nano, "2006-01-02T15:04:05Z07:00", "2006-01-02", format] ∧
+    BagCode.wrapValueTypes = ["int64", "string"] := by
+  refine ⟨fun n => rfl, rfl, by decide⟩
+
+/-- both setters accept nil, a symbol or a string and end by rebuilding the converter
+    (model: `setFormat` / `setWrap` = `updateConverter` after the assignment) -/
+theorem gen_setters_rebuild :
+    BagCode.setTimeFormat = ["switch l1 := value.(type)", "case nil", "options.TimeFormat = \"\"",
+      "case slip.Symbol", "options.TimeFormat = string(l1)", "case slip.String", "options.TimeFormat = string(l1)",
+      "default", "raise", "end", "updateConverter()"] ∧
+    BagCode.setTimeWrap = ["switch l1 := value.(type)", "case nil", "options.TimeWrap = \"\"",
+      "case slip.Symbol", "options.TimeWrap = string(l1)", "case slip.String", "options.TimeWrap = string(l1)",
+      "default", "raise", "end", "updateConverter()"] := by decide
+
+/-! ## pkg/bag/write.go: the options of bag-write -/
+
+def writerGoName : Writer → String
+  | .pretty => "pw.Encode"
+  | .sen => "sen.Bytes"
+  | .json => "oj.JSON"
+
+/-- which writer produces the text, for ALL settings: the pretty writer exactly when the pretty
+    flag is on and the depth exceeds 1, otherwise the SEN or the JSON writer by the SEN flag -/
+theorem gen_writer_branch (w : WOpts) :
+    BagCode.writerBranch w.prty w.maxDepth w.sen = writerGoName (writerOf w) := by
+  unfold BagCode.writerBranch writerOf
+  by_cases h1 : (w.prty && decide (1 < w.maxDepth)) = true
+  · simp only [h1, if_true, writerGoName]
+  · by_cases h2 : w.sen = true <;> simp [h1, h2, writerGoName]
+
+/-- the settings before any keyword is read (model: `WOpts.init`) -/
+theorem gen_write_defaults :
+    BagCode.writeDefaults = [("prty", "dp.Pretty"), ("pw.Indent", "2"), ("pw.MaxDepth", "4"), ("pw.Options", "options"),
+      ("pw.SEN", "true"), ("pw.Width", "int(dp.RightMargin)")] := by decide
+
+example : (WOpts.init true 80).maxDepth = 4 ∧ (WOpts.init true 80).indent = 2 ∧ (WOpts.init true 80).sen = true := ⟨rfl, rfl, rfl⟩
+
+/-- the keywords and what each does (model: `applyKw`): `:pretty` sets the flag from "non-nil" and
+    switches key sorting on; `:depth` wants a fixnum, sets the depth and drops the indentation at
+    depth ≤ 0; `:right-margin` wants a fixnum; `:time-format` / `:time-wrap` want nil or a string
+    and touch the writer's copy only; `:json` clears the SEN flag when non-nil; `:color` sets the
+    colour flag from "non-nil"; anything else raises -/
+theorem gen_write_keywords :
+    BagCode.writeKeywords = [
+      (":color", ["pw.Color = args[pos+1] != nil"]),
+      (":depth", ["l1, l2 := args[pos+1].(slip.Fixnum)", "if !l2", "raise", "end", "pw.MaxDepth = int(l1)",
+        "if pw.MaxDepth <= 0", "pw.Indent = 0", "end"]),
+      (":json", ["pw.SEN = args[pos+1] == nil"]),
+      (":pretty", ["prty = args[pos+1] != nil", "pw.Options.Sort = true"]),
+      (":right-margin", ["l1, l2 := args[pos+1].(slip.Fixnum)", "if !l2", "raise", "end", "pw.Width = int(l1)"]),
+      (":time-format", ["switch l1 := args[pos+1].(type)", "case nil", "pw.TimeFormat = \"\"", "case slip.String",
+        "pw.TimeFormat = string(l1)", "default", "raise", "end"]),
+      (":time-wrap", ["switch l1 := args[pos+1].(type)", "case nil", "pw.TimeWrap = \"\"", "case slip.String",
+        "pw.TimeWrap = string(l1)", "default", "raise", "end"])] ∧
+    BagCode.writeUnknownKeywordRaises = true := by decide
+
+/-- every keyword the source accepts is one the model's `applyKw` accepts (with a value of the
+    right kind), and no other is -/
+theorem gen_write_keywords_model (w : WOpts) :
+    (∀ kw ∈ BagCode.writeKeywords.map (·.1),
+      (applyKw kw (.fix 3) w).isSome = true ∨ (applyKw kw (.str "x") w).isSome = true) ∧
+    applyKw ":unknown" .nil w = none := by
+  constructor
+  · intro kw hkw
+    have hk : kw = ":color" ∨ kw = ":depth" ∨ kw = ":json" ∨ kw = ":pretty" ∨ kw = ":right-margin" ∨
+        kw = ":time-format" ∨ kw = ":time-wrap" := by
+      have h := gen_write_keywords.1
+      rw [h] at hkw
+      simpa using hkw
+    rcases hk with rfl | rfl | rfl | rfl | rfl | rfl | rfl <;> simp [applyKw]
+  · simp [applyKw]
+
+/-- the destination (nil = a string is returned, a stream or t = written there and nil returned) -/
+theorem gen_write_destination :
+    BagCode.writeStreamArg = ["switch l1 := args[0].(type)", "case nil", "pos++", "case io.Writer", "out = l1", "pos++",
+      "case slip.Symbol", "default", "if l1 == slip.True", "out = slip.StandardOutput.(io.Writer)", "else", "raise", "end",
+      "pos++", "end"] ∧
+    BagCode.writeOutput = ["if out == nil", "return slip.String(b)", "end", "if _, l1 := out.Write(b); l1 != nil", "raise",
+      "end", "return nil"] := by decide
+
+/-! ## which ojg operation each path function applies to the bag's tree -/
+
+/-- get = `First`, get-all and walk = `Get`, has = `Has`, set / parse / read with a path = `MustSet`,
+    remove = `MustRemove` **with the returned root stored back**, modify = `MustModify` with the
+    returned root stored back, scan = `jp.Walk`, native = `SimpleObject`, compare = `alt.Compare`;
+    without a path the tree itself is read / replaced. (Model: `get`, `getAll`, `walk`, `has`, `set`,
+    `remove`, `modifyAt`, `scan`, `toLisp`, `compare`.) -/
+theorem gen_tree_uses :
+    BagCode.treeUses.lookup "get.go:getBag" = some ["obj.Any = value", "x.First(obj.Any)"] ∧
+    BagCode.treeUses.lookup "get-all.go:getAllBag" = some ["obj.Any = got", "ov.Any = v", "x.Get(obj.Any)"] ∧
+    BagCode.treeUses.lookup "has.go:hasBag" = some ["x.Has(obj.Any)"] ∧
+    BagCode.treeUses.lookup "set.go:setBag" = some ["obj.Any = v", "x.MustSet(obj.Any, v)"] ∧
+    BagCode.treeUses.lookup "parse.go:parseBag" = some ["obj.Any = v", "x.MustSet(obj.Any, v)"] ∧
+    BagCode.treeUses.lookup "read.go:readBag" = some ["obj.Any = v", "x.MustSet(obj.Any, v)"] ∧
+    BagCode.treeUses.lookup "remove.go:removeBag" = some ["obj.Any = nil", "obj.Any = x.MustRemove(obj.Any)"] ∧
+    BagCode.treeUses.lookup "walk.go:walkBag" = some ["arg.Any = v", "path.Get(obj.Any)"] ∧
+    BagCode.treeUses.lookup "scan.go:scanBag" = some ["jp.Walk(obj.Any, func, leavesOnly)"] ∧
+    BagCode.treeUses.lookup "native.go:Native.Call" = some ["slip.SimpleObject(obj.Any)"] ∧
+    BagCode.treeUses.lookup "compare.go:compareBag" = some ["alt.Compare(obj.Any, other.Any, ignores)"] ∧
+    (BagCode.treeUses.lookup "modify.go:modifyBag").map (·.length) = some 2 := by decide
 
 end SlipVerif.Json.GenTie
